@@ -6,8 +6,10 @@ set -e
 NAME="$1"; [ -n "$NAME" ] || { echo "usage: mkscratch.sh <name>"; exit 2; }
 D="/tmp/w-$NAME"
 mkdir -p "$D/home/evidence" "$D/home/replays/found" "$D/home/replays/known" "$D/home/replays/regress"
-rsync -a --delete --exclude target --exclude .build.lock /verif/harness/ "$D/harness/"
-rsync -a --delete --exclude target --exclude .git /repo/ "$D/repo/"
+rsync -ai --delete --exclude target --exclude .build.lock /verif/harness/ "$D/harness/" | awk '$1 ~ /^>f/ {print substr($0, index($0,$2))}' | while read -r f; do touch "$D/harness/$f"; done
+# files that rsync (re)writes get their ORIGINAL (old) mtime back; cargo would then miss the change and keep a
+# stale build of a previously patched crate, so every transferred file is touched
+rsync -ai --delete --exclude target --exclude .git /repo/ "$D/repo/" | awk '$1 ~ /^>f/ {print substr($0, index($0,$2))}' | while read -r f; do touch "$D/repo/$f"; done
 cp /verif/KNOWN_FINDINGS.txt "$D/home/" 2>/dev/null || true
 sed -i "s|\"/repo/|\"$D/repo/|g" "$D/harness/Cargo.toml"
 grep -rl '"/repo/' "$D/harness/src" | xargs -r sed -i "s|\"/repo/|\"$D/repo/|g"
